@@ -1,0 +1,21 @@
+//go:build verif
+
+package main
+
+import "github.com/gardenbed/emerge/internal/generate/golang"
+
+func init() {
+	register("id_valid", opIDValid)
+}
+
+// opIDValid returns the verdict of the generator's package-name check for each name.
+func opIDValid(req request) response {
+	out := []bool{}
+	if l, ok := req["names"].([]any); ok {
+		for _, x := range l {
+			s, _ := x.(string)
+			out = append(out, golang.VerifIsIDValid(s))
+		}
+	}
+	return response{"outcome": "ok", "valid": out}
+}
